@@ -22,3 +22,34 @@ s.ens("result-consistent", ("C19",), lambda c, A, R: Inv(c, rsnap(R.result)))
 s.ens_all("argument-unchanged", ("C19", "C08"), lambda c, A, R: same_state(c, A.snap0["H"], R.snap["H"]))
 for e_ in ("TypeError", "XGIError", "ValueError", "IndexError", "UnboundLocalError", "IDNotFound"):
     s.exc(e_)
+
+
+# ------------------------------------------------------------------ copy / dual / << / constructors (result is consistent, source untouched)
+HQ = "xgi/core/hypergraph.py::Hypergraph."
+DQ = "xgi/core/dihypergraph.py::DiHypergraph."
+SQ = "xgi/core/simplicialcomplex.py::SimplicialComplex."
+
+
+def derived(qual, kind, params, result_kind=None, props=("C04", "C07", "C19"), extra_self=None, fresh=True):
+    s = contract(qual, [("self", "net:" + kind)] + params)
+    s.modifies = []
+    s.result = "net:" + (result_kind or kind)
+    s.req("Inv", lambda c, A: Inv(c, A.S0), props)
+    s.req("Fresh", lambda c, A: Fresh(c, A.S0), props)
+    if fresh:
+        s.ens("result-consistent", props, lambda c, A, R: z3.And(Inv(c, rsnap(R.result)), Fresh(c, rsnap(R.result))))
+    else:
+        # Fresh(result) needs the ids of the copied edges to be the source's ids: the adders' contracts do
+        # not yet relate stored ids to the elements of a generator argument (bounded: native C07 oracle)
+        s.ens("result-consistent", props, lambda c, A, R: Inv(c, rsnap(R.result)))
+    s.ens("result-unfrozen", ("C18",) + tuple(props), lambda c, A, R: z3.Not(rsnap(R.result).frozen))
+    s.ens_all("source-unchanged", ("C08",) + tuple(props), lambda c, A, R: same_state(c, A.S0, R.S))
+    s.raises_any = True
+    return s
+
+
+s = derived(HQ + "copy", "H", [], fresh=False)
+s.ens("same-counter", ("C04", "C07"), lambda c, A, R: rsnap(R.result).uid == A.S0.uid)
+s = derived(DQ + "copy", "DH", [], fresh=False)
+s.ens("same-counter", ("C04", "C07"), lambda c, A, R: rsnap(R.result).uid == A.S0.uid)
+s = derived(HQ + "dual", "H", [], props=("C04", "C19"))
